@@ -90,6 +90,9 @@ def known_match(case: dict, detail: Any) -> Optional[str]:
     """
     if not isinstance(detail, dict):
         return None
+    import html
+    if isinstance(case.get('xml'), str) and '&' in case['xml']:
+        case = dict(case, xml=html.unescape(case['xml']))
     kind = detail.get('kind')
     if kind == 'verdict' and detail.get('only_reference_errors') and detail.get('dissenting_all_decode'):
         return 'C04-F2'
